@@ -11,6 +11,8 @@ type To struct {
 	nameAddr *NameAddr
 	addrSpec *AddrSpec
 	params   []KeyValue
+	// text between '>' and the first ';' as received (optional blanks)
+	sep string
 }
 
 func ParseTo(s string) (*To, error) {
@@ -36,6 +38,7 @@ func ParseTo(s string) (*To, error) {
 		}
 		pos := strings.IndexByte(s[raquot_pos+1:], ';')
 		if pos != -1 {
+			r.sep = s[raquot_pos+1 : raquot_pos+1+pos]
 			params = s[raquot_pos+1+pos+1:]
 		}
 	} else {
@@ -76,7 +79,10 @@ func (t *To) String() string {
 		fmt.Fprintf(buf, "%s", t.addrSpec)
 	}
 
-	for _, kv := range t.params {
+	for i, kv := range t.params {
+		if i == 0 {
+			buf.WriteString(t.sep)
+		}
 		fmt.Fprintf(buf, ";%s", kv)
 	}
 	return buf.String()
